@@ -64,6 +64,11 @@ def gen(tier, rnd):
         case(win, 1, 1, ['H 0', 'R 0', 'G 0 0', 'G 0 5', 'R 0', 'N', 'N'])
         case(win, 0, 1, ['H 0', 'G 0 0', 'R 0', 'R 0', 'N'])
         case(win, 0, 1, ['H 0', 'H 1', 'G 1 0', 'G 1 1', 'R 1', 'R 0', 'R 0', 'N'])
+    # B.1.2 off: the very first message a recipient ever sees is a forgery (any claimed number): it leaves no trace - the first genuine request, whatever
+    # its number, is accepted afterwards
+    for claimed in (0, 1, 5, 40, 1000):
+        case(32, 0, 1, ['H 0', 'G 0 %d' % claimed, 'R 0', 'N', 'R 0'])
+        case(32, 0, 1, ['H 0', 'H 1', 'G 1 %d' % claimed, 'G 0 %d' % claimed, 'R 1', 'R 0', 'N'])
     # sender: save callback and restarts at every point
     for freq in (1, 2, 3, 10):
         for k in range(0, 8):
